@@ -18,7 +18,21 @@ from __future__ import annotations
 import threading
 import time
 
-FAULT_CLASSES = {"RuntimeError": RuntimeError, "ValueError": ValueError, "KeyError": KeyError}
+class TwoArgError(Exception):
+    """an exception whose constructor signature differs from its `args` (cannot be rebuilt by copy/pickle-style `type(e)(*e.args)`), like
+    qiskit's MissingOptionalLibraryError"""
+
+    def __init__(self, what, where):
+        super().__init__(f"{what} {where}")
+
+
+FAULT_CLASSES = {"RuntimeError": RuntimeError, "ValueError": ValueError, "KeyError": KeyError, "TwoArgError": TwoArgError}
+
+
+def make_fault(name, no):
+    if name == "TwoArgError":
+        return TwoArgError("fault in invocation", no)
+    return FAULT_CLASSES[name](f"fault in invocation {no}")
 
 # stubs pickle as a reference to themselves (a dask worker thread receives a serialized copy of the WRAPPER; all copies in a process must still
 # guard the one wrapped primitive)
@@ -48,7 +62,7 @@ def make_stub(kind, plan, delay):
                 f = plan.get(self.no)
                 if f and f[0] == "result":
                     s.failed.add(self.no)
-                    raise FAULT_CLASSES[f[1]](f"fault in invocation {self.no}")
+                    raise make_fault(f[1], self.no)
                 out = []
                 for i in self.ids:
                     if kind == "sampler":
@@ -96,7 +110,7 @@ def make_stub(kind, plan, delay):
                     with self.lock:
                         self.failed.add(no)
                         self.in_use -= 1
-                    raise FAULT_CLASSES[f[1]](f"fault in invocation {no}")
+                    raise make_fault(f[1], no)
                 return Job(self, no, ids)
             finally:
                 with self.lock:
@@ -137,10 +151,11 @@ def gen_scenario(rng):
     if rng.random() < 0.6:
         for _ in range(rng.randint(1, 2)):
             plan[str(rng.randint(0, n_rounds))] = [rng.choice(["run", "result"]), rng.choice(list(FAULT_CLASSES))]
-    return {"kind": kind, "wrapper": wrapper, "rounds": rounds, "plan": plan}
+    return {"kind": kind, "wrapper": wrapper, "rounds": rounds, "plan": plan, "waiting": rng.choice([0.02, 0.02, 0.005, 0.0])}
 
 
-def execute(sc, waiting=0.02, delay=0.01, timeout=8.0):
+def execute(sc, waiting=None, delay=0.01, timeout=8.0):
+    waiting = sc.get("waiting", 0.02) if waiting is None else waiting
     from queasars.circuit_evaluation.mutex_primitives import BatchingMutexEstimator, BatchingMutexSampler, MutexEstimator, MutexSampler
 
     kind = sc["kind"]
@@ -234,6 +249,8 @@ def run_wrapper_level(ctx, prop, n_quick=25, n_thorough=400):
         {"kind": "sampler", "wrapper": "batching", "rounds": [[[1], [2, 3]], [[4]], [[5], [6]]], "plan": {"0": ["result", "KeyError"]}},
         {"kind": "sampler", "wrapper": "mutex-copies", "rounds": [[[1], [2], [3], [4]], [[5], [6], [7]]], "plan": {}},
         {"kind": "estimator", "wrapper": "mutex-copies", "rounds": [[[1], [2], [3], [4]], [[5], [6], [7]]], "plan": {}},
+        {"kind": "estimator", "wrapper": "batching", "rounds": [[[1, 2], [3]], [[4]], [[5], [6]]], "plan": {"0": ["result", "TwoArgError"]}},
+        {"kind": "sampler", "wrapper": "batching", "rounds": [[[1], [2]], [[3]]], "plan": {}, "waiting": 0.0},
     ]
     scenarios = fixed + [gen_scenario(rng) for _ in range(ctx.n(n_quick, n_thorough))]
     for sc in scenarios:
